@@ -7,6 +7,7 @@ import (
 	"go/ast"
 	"go/token"
 	"go/types"
+	"regexp"
 	"strings"
 
 	"rscheck/cfgq"
@@ -20,6 +21,8 @@ const (
 	pkgSync = "redis-shake/dbSync"
 	sup     = "slotSupervisor"
 )
+
+var pseudoLabel = regexp.MustCompile(`^L_x\d+$`)
 
 var Def = driver.PropDef{
 	ID: "C20",
@@ -56,8 +59,48 @@ func Run(c *core.Ctx) {
 		if fn == nil {
 			continue
 		}
+		pseudo := map[*ast.ForStmt]bool{} // `L_xN: for { ...; break L_xN }`: the one-trip loop the helper expansion writes for early exits
+		core.Inspect(fn.Decl.Body, func(n ast.Node) bool {
+			if ls, ok := n.(*ast.LabeledStmt); ok {
+				if fs, isFor := ls.Stmt.(*ast.ForStmt); isFor && fs.Init == nil && fs.Cond == nil && fs.Post == nil && pseudoLabel.MatchString(ls.Label.Name) && len(fs.Body.List) > 0 {
+					if br, isBr := fs.Body.List[len(fs.Body.List)-1].(*ast.BranchStmt); isBr && br.Tok == token.BREAK && br.Label != nil && br.Label.Name == ls.Label.Name {
+						// no `continue` of this loop: it runs once
+						cont := false
+						ast.Inspect(fs.Body, func(m ast.Node) bool {
+							if b, isB := m.(*ast.BranchStmt); isB && b.Tok == token.CONTINUE && b.Label != nil && b.Label.Name == ls.Label.Name {
+								cont = true
+							}
+							return true
+						})
+						// an unlabelled continue directly in the body (not inside an inner loop) would repeat it too
+						var walk func(m ast.Node)
+						walk = func(m ast.Node) {
+							ast.Inspect(m, func(k ast.Node) bool {
+								switch v := k.(type) {
+								case *ast.ForStmt, *ast.RangeStmt, *ast.FuncLit:
+									return k == m
+								case *ast.BranchStmt:
+									if v.Tok == token.CONTINUE && v.Label == nil {
+										cont = true
+									}
+								}
+								return true
+							})
+						}
+						walk(fs.Body)
+						if !cont {
+							pseudo[fs] = true
+						}
+					}
+				}
+			}
+			return true
+		})
 		core.Inspect(fn.Decl.Body, func(n ast.Node) bool {
 			if fs, ok := n.(*ast.ForStmt); ok {
+				if pseudo[fs] {
+					return true
+				}
 				if fn == rec && retryLoop.IsValid() && fs.Pos() == retryLoop {
 					return true // the retry itself, written as a counting loop (R3.retry decides it)
 				}
@@ -234,11 +277,12 @@ func nodeState(c *core.Ctx, fn *core.Fn) (trueImpliesNil bool) {
 							}
 							return true
 						})
-						// the value may be carried in locals: `reply, err := conn.Do(..); return redigo.String(reply, err)`
+						// the error may be carried in locals: `reply, err := conn.Do(..); return redigo.String(reply, err)`
+						// (error-typed locals only: the connection `conn` a command is sent on is not where its error comes from)
 						if depth > 0 {
 							ast.Inspect(n, func(m ast.Node) bool {
 								if id, ok := m.(*ast.Ident); ok {
-									if v, isVar := core.ObjOf(info, id).(*types.Var); isVar && !v.IsField() && v != o && v.Pkg() != nil && v.Parent() != v.Pkg().Scope() {
+									if v, isVar := core.ObjOf(info, id).(*types.Var); isVar && !v.IsField() && v != o && v.Pkg() != nil && v.Parent() != v.Pkg().Scope() && cfgq.IsErrorType(v.Type()) {
 										for _, dd := range tt.DefsOf(info, root, v) {
 											if dd.Rhs != nil {
 												origin(dd.Rhs, depth-1)
